@@ -26,7 +26,7 @@ PROFILES = {
         "new_sec": 2, "new_prop": 14, "create_property": 6, "set_values": 16, "set_dtype": 12,
         "v_append": 10, "v_extend": 10, "v_insert": 8, "v_setitem": 8, "v_remove": 5,
         "reassign_values": 5, "merge": 6, "clone": 4, "advance": 1,
-    }, fault_share=0.4, detached_share=0.6),
+    }, fault_share=0.4, detached_share=0.6, wfilter_share=0.05),
 }
 MONITORS = [mon_values]
 
